@@ -357,8 +357,9 @@ static void _cbor_nested_describe(cbor_item_t* item, FILE* out, int indent) {
         fprintf(out, "%*s", indent + indent_offset, " ");
         // Note: The string is not escaped, whitespace and control character
         // will be printed in verbatim and take effect.
-        fwrite(cbor_string_handle(item), sizeof(unsigned char),
-               cbor_string_length(item), out);
+        if (cbor_string_length(item) > 0)
+          fwrite(cbor_string_handle(item), sizeof(unsigned char),
+                 cbor_string_length(item), out);
         fprintf(out, "\n");
       }
       break;
